@@ -35,6 +35,7 @@ func (c *Ctx) calleeHasEff(call *ssa.Call, kind, op, prefix string) bool {
 }
 
 func checkC16(c *Ctx) {
+	c.checkKeyMakers("C16", 1)
 	p, r := c.P, c.R
 	roots := c.Roots()
 	msgReach := p.Reach(roots.Msg...)
@@ -267,15 +268,26 @@ func checkC16(c *Ctx) {
 						idx = true
 					}
 					if n := ana.NamedOf(a.Type()); n != nil && n.Obj().Name() == "ValAddress" {
-						for lab := range l.Leaves {
-							if strings.HasPrefix(lab, "call:") {
-								val = true
+						// the asking address is resolved by the resolver the recording side uses (orchestrator ->
+						// its validator, otherwise the address itself): another resolution looks under another key
+						for lab, vals := range l.Vals {
+							if !strings.HasPrefix(lab, "call:") {
+								continue
+							}
+							for _, v := range vals {
+								if rc, _ := ana.UnwrapCall(v); rc != nil {
+									if callee := rc.Call.StaticCallee(); callee != nil {
+										if okR, _ := c.bondedResolver(callee); okR {
+											val = true
+										}
+									}
+								}
 							}
 						}
 					}
 				}
 				ok = idx && val
-				detail = sprintf("index from otx.GetStoreIndex=%v, validator from the requester=%v", idx, val)
+				detail = sprintf("index from otx.GetStoreIndex=%v, validator from the signer resolver of the recording side=%v", idx, val)
 			})
 			for _, an := range f.AnonFuncs {
 				visit(an)
